@@ -32,7 +32,14 @@ Proof.
   unfold pname_of, bin_name. destruct (has_prefix bin_prefix fname) eqn:Hp; [|discriminate].
   intros H. apply has_prefix_split in Hp. cbn [String.length bin_prefix] in Hp.
   change (String.length bin_prefix) with 9%nat in Hp.
-  destruct (drop 9 fname) eqn:Hd; [discriminate|]. inversion H; subst n. exact Hp.
+  cbv zeta in H. destruct (valid_name (drop 9 fname)); [|discriminate]. injection H as <-. exact Hp.
+Qed.
+
+(* since 30cc14e the name read off a file name is a valid plugin name *)
+Lemma pname_of_valid fname n : pname_of fname = Some n -> valid_name n = true.
+Proof.
+  unfold pname_of. destruct (has_prefix bin_prefix fname); [|discriminate].
+  cbv zeta. destruct (valid_name (drop 9 fname)) eqn:Hv; [|discriminate]. intros H. injection H as <-. exact Hv.
 Qed.
 
 Lemma bs_cmp_refl x : bs_cmp x x = Eq.
